@@ -35,6 +35,8 @@ def run_real(case, values):
 
 
 def run_model(T, case, values):
+    if getattr(case, "no_concrete_model", False):
+        return ("outside", None), None
     mk = ConcMk(values)
     ctx = C.Ctx()
     ctx.concrete_mode = True
